@@ -100,6 +100,11 @@ func newEngine(repo, specDir string, patterns []string) (*Engine, error) {
 		return nil, fmt.Errorf("%d package load errors", nerr)
 	}
 	prog, _ := ssautil.AllPackages(pkgs, ssa.InstantiateGenerics)
+	for _, sp := range prog.AllPackages() {
+		if strings.HasPrefix(sp.Pkg.Path(), repoMod) {
+			sp.SetDebugMode(true) // DebugRef: source names of loop-invariant values for loop invariants
+		}
+	}
 	prog.Build()
 	e.prog = prog
 	e.pkgs = pkgs
@@ -371,6 +376,22 @@ func (e *Engine) discharge(vcs []*VC, opts runOpts) {
 				}
 				r := solve(q, j.o.Name, to, opts.all && j.o.Expect != "sat", opts.tmpdir, j.o.Expect == "sat")
 				j.o.Answer, j.o.Solver, j.o.Ms, j.o.Output = r.Answer, r.Solver, r.Ms, r.Output
+				if j.o.Expect != "sat" && (r.Answer == "timeout" || r.Answer == "unknown") {
+					// case split: both halves must be discharged
+					for si, c := range j.vc.splits {
+						h1 := strings.Replace(q, "(check-sat)", "(assert "+c+")\n(check-sat)", 1)
+						h2 := strings.Replace(q, "(check-sat)", "(assert (not "+c+"))\n(check-sat)", 1)
+						r1 := solve(h1, fmt.Sprintf("%s.split%d.a", j.o.Name, si), to, false, opts.tmpdir, false)
+						if r1.Answer != "unsat" {
+							continue
+						}
+						r2 := solve(h2, fmt.Sprintf("%s.split%d.b", j.o.Name, si), to, false, opts.tmpdir, false)
+						if r2.Answer == "unsat" {
+							j.o.Answer, j.o.Solver, j.o.Ms = "unsat", "case-split", r.Ms+r1.Ms+r2.Ms
+							break
+						}
+					}
+				}
 			}
 		}()
 	}
